@@ -5,6 +5,9 @@ from mc.lib import classify_spaces as cs
 ID = 'C01'
 LEVEL = 'model_checking'
 WANT = ('C01',)
+# fewer non-trivial cases than this share of all cases means that the
+# exploration has become vacuous (reported as INTERNAL-ERROR, never as a pass)
+MIN_NONTRIVIAL_FRACTION = 0.2
 RULE = (
     'Every record over the stated alphabets up to the stated length is run '
     'through the real classify code (match_storms with every proposer '
